@@ -299,6 +299,11 @@ pub fn f15_subcheck() -> SubCheck {
     }
 }
 
+/// entry for the coverage-guided fuzz target (the bytes are the choice tape)
+pub fn fuzz_entry(tape: &[u32], st: &mut Stats) -> CaseResult {
+    convert_soup(tape, st)
+}
+
 pub fn def() -> PropDef {
     PropDef {
         id: "C03",
@@ -329,6 +334,7 @@ pub fn def() -> PropDef {
                 kind: Kind::Tape { len: 500, quick: 40_000, thorough: 2_000_000, f: convert_soup },
             },
             f15_subcheck(),
+            crate::fuzzdrv::differential_subcheck(),
         ],
     }
 }
